@@ -93,7 +93,7 @@ func (t *treeGen) leafOp() *Op {
 			t.cur.commit(v.r)
 		}
 	case "remove", "removeKeyed":
-		t.cur = t.cur.removeCandidates(o.Type, o.Key)[0]
+		t.cur = t.cur.afterRemove(o)[0]
 	}
 	return o
 }
@@ -193,7 +193,7 @@ func genTree(rng *rand.Rand) []*Node {
 					s.commit(v.r)
 				}
 			case "remove", "removeKeyed":
-				s = s.removeCandidates(n.Op.Type, n.Op.Key)[0]
+				s = s.afterRemove(n.Op)[0]
 			}
 		}
 		slots[pos].Op = t.failingOp(s)
@@ -227,6 +227,15 @@ func runTree(tree []*Node, stats map[string]int64) (fs []finding, nontrivial boo
 	}
 	stats["trees"]++
 	stats["leaves"] += int64(len(leaves))
+	for _, lf := range leaves {
+		if lf.Op != nil && lf.Op.Kind == "removeKeyed" {
+			k := lf.Op.KeyKind
+			if k == "" {
+				k = "name"
+			}
+			stats["remove_keyed_leaves_key_"+k]++
+		}
+	}
 	depth := treeDepth(tree)
 	stats[fmt.Sprintf("trees_depth_%d", depth)]++
 	for _, ev := range e.rec.Events() {
